@@ -11,7 +11,8 @@ Line-protocol driver for C16 (see `harness/src/props/c16.rs` for the implementat
                                                   before the body stream is polled
 
 flags: h use_hidden_files, i index_file("index.html"), l show_files_listing,
-       r redirect_to_slash_directory, E use_etag(false), M use_last_modified(false), s sync reads
+       r redirect_to_slash_directory, E use_etag(false), M use_last_modified(false), s sync reads,
+       m mount at "/s" instead of "/"
 tags : comma separated from E (the file's etag, strong) W (same, weak) X ("xyz") V (W/"xyz")
        bad (unparsable item) * ; the single value `nonstr` is a header value with a byte ≥ 0x80
 dates: seconds relative to the file's modification time T0
@@ -194,7 +195,18 @@ def runS (ws : List String) : String :=
              | some h => (bytesOfHex h).bind classifyRange) with
       | some (im, _), some (inm, hasInm), some ius, some ims, some range =>
         let path := urlPath raw
-        match serve cfg tree (method == "GET" || method == "HEAD") path (endsWithByte 0x2F path) with
+        -- flag m: mounted at "/s" (`ResourceDef::root_prefix("/s")` matches "/s" and "/s/…");
+        -- anything else falls to the app's default 404
+        let unprocessed : Option Bytes :=
+          if has 'm' then
+            if path == bs "/s" then some []
+            else if (bs "/s/").isPrefixOf path then some (path.drop 2)
+            else none
+          else some path
+        match unprocessed with
+        | none => plain "404" "-"
+        | some unprocessed =>
+        match serve cfg tree (method == "GET" || method == "HEAD") unprocessed (endsWithByte 0x2F path) with
         | .methodNotAllowed => plain "405" "MethodNotAllowed"
         | .badRequest e => plain "400" (showErr e)
         | .notFound => plain "404" "-"
